@@ -36,15 +36,60 @@ type C07Case struct {
 	FillMB int `json:"fillmb,omitempty"`
 }
 
-var c07Junk = []string{"comment", "blank", "nonjson", "notification", "unknown-request", "unknown-id", "id-bool", "id-object", "id-string", "no-result", "both", "giant", "garbage", "bom", "cr-valid",
+var c07Junk = []string{"odd-result", "odd-result", "comment", "blank", "nonjson", "notification", "unknown-request", "unknown-id", "id-bool", "id-object", "id-string", "no-result", "both", "giant", "garbage", "bom", "cr-valid",
 	"unknown-event", "endpoint-again", "multiline-valid", "empty-data", "huge-id", "truncated", "null", "array", "ctl-id", "giant", "valid-again", "valid-again", "valid-again"}
+
+// answers to the call whose result is JSON of the wrong shape somewhere inside: an error or any value may come back, never a crash
+var c07OddResults = []string{
+	`{"content":[{"type":"text","text":"t","annotations":{"audience":[1,null,{}],"priority":"high"}}]}`,
+	`{"content":[{"type":"text","text":5}]}`,
+	`{"content":[{"type":"image","data":7,"mimeType":[]}]}`,
+	`{"content":[{"type":"resource","resource":{"uri":3,"text":{}}}]}`,
+	`{"content":[null,7,"x",[]]}`,
+	`{"content":{"type":"text"}}`,
+	`{"content":[{"type":"text","text":"t","annotations":[]}]}`,
+	`{"content":[{"type":"text","text":"t","annotations":{"audience":"user","priority":[]}}]}`,
+	`{"content":[{"type":"audio","data":null,"annotations":{"audience":[true]}}]}`,
+	`{"content":[{"type":"resource_link","uri":1}]}`,
+	`{"content":[],"isError":"yes","structuredContent":[1]}`,
+	`{"content":[{"type":"text","text":"t","_meta":7}],"_meta":"x"}`,
+	`{"content":[{"type":["text"]}]}`,
+	`{"content":[{"type":"resource","resource":[]}]}`,
+	`{"content":[{"type":"resource","resource":{"uri":"u","blob":5,"annotations":{"audience":[{}]}}}]}`,
+	`{"content":[{"type":"image","data":"AA==","mimeType":"image/png","annotations":{"audience":[7],"priority":2}}]}`,
+	`[]`, `"text"`, `7`, `{"content":"text"}`, `{"content":[{"text":"no type"}]}`,
+}
+
+var c07Harmless = map[string]bool{"comment": true, "blank": true, "notification": true, "unknown-event": true, "unknown-id": true, "unknown-request": true, "id-bool": true, "id-object": true, "id-string": true}
+
+// c07HarmlessBeforeValid: the script holds the valid answer and, besides it, only skippable elements (junk of other kinds
+// may make the affected call fail wherever it stands, also behind the answer).
+func c07HarmlessBeforeValid(script []C07Elem) bool {
+	valid := false
+	for _, e := range script {
+		if e.Kind == "valid" {
+			valid = true
+		} else if !c07Harmless[e.Kind] {
+			return false
+		}
+	}
+	return valid
+}
+
+// c07Observe, when set (probing only), sees what the affected call returned.
+var c07Observe func(c C07Case, text string, err error)
 
 func genC07(t *rapid.T) C07Case {
 	c := C07Case{Client: rapid.SampledFrom([]string{"streamable-json", "streamable-sse", "streamable-get", "legacy", "legacy", "stdio", "stdio"}).Draw(t, "client")}
 	n := rapid.IntRange(1, 6).Draw(t, "nelems")
 	hasValid := false
+	// one script in four is made of skippable elements only (around them the answer must still arrive)
+	pool := append([]string{"valid", "valid"}, c07Junk...)
+	if rapid.IntRange(0, 3).Draw(t, "harmless") == 0 {
+		pool = []string{"valid", "valid", "comment", "blank", "notification", "unknown-event", "unknown-event", "unknown-id", "unknown-request", "id-bool", "id-object", "id-string"}
+	}
 	for i := 0; i < n; i++ {
-		k := rapid.SampledFrom(append([]string{"valid", "valid"}, c07Junk...)).Draw(t, "elem")
+		k := rapid.SampledFrom(pool).Draw(t, "elem")
 		if k == "valid" {
 			if hasValid {
 				k = "comment"
@@ -63,6 +108,9 @@ func genC07(t *rapid.T) C07Case {
 			k = "notification"
 		}
 		e := C07Elem{Kind: k}
+		if k == "odd-result" {
+			e.N = rapid.IntRange(0, len(c07OddResults)-1).Draw(t, "odd")
+		}
 		if k == "giant" {
 			e.N = rapid.SampledFrom([]int{600, 5000, 70000, 300000, 1 << 20}).Draw(t, "giantsize")
 		}
@@ -111,6 +159,8 @@ func (e C07Elem) frame() string {
 		return `{"jsonrpc":"2.0","id":{"a":[1]},"result":{}}`
 	case "id-string":
 		return `{"jsonrpc":"2.0","id":"not-a-number","result":{}}`
+	case "odd-result":
+		return `{"jsonrpc":"2.0","id":{{id}},"result":` + c07OddResults[e.N%len(c07OddResults)] + `}`
 	case "no-result":
 		return `{"jsonrpc":"2.0","id":{{id}}}`
 	case "both":
@@ -396,7 +446,21 @@ func runC07WithFake(c C07Case, preset *FakeServer) *Failure {
 		return TimingFailf("C07/call-does-not-return/"+c.Client, "%s: the affected call did not return 5 s after its context deadline", where)
 	}
 	wg.Wait()
-	if a.err == nil && a.text != c07ValidTextPad(c.Pad) {
+	if c07Observe != nil {
+		c07Observe(c, a.text, a.err)
+	}
+	if (c.Client == "streamable-sse" || c.Client == "legacy") && a.err != nil && c07HarmlessBeforeValid(c.Script) {
+		// comments, blank lines, events of another type, notifications, requests, answers under unknown or mistyped ids: the
+		// statement names them as things that never stop the processing of later well-formed frames - the answer is one
+		f := Failf("C07/later-frames-dropped/"+c.Client, "%s: everything around the well-formed answer was skippable (%v), yet the call failed: %v", where, c.Script, a.err)
+		f.Timing = isTimeoutText(a.err.Error())
+		return f
+	}
+	odd := false
+	for _, e := range c.Script {
+		odd = odd || e.Kind == "odd-result"
+	}
+	if a.err == nil && a.text != c07ValidTextPad(c.Pad) && !odd {
 		return Failf("C07/wrong-value/"+c.Client, "%s: the affected call returned %.200q (neither an error nor the valid answer)", where, a.text)
 	}
 	for i, e := range extra {
